@@ -360,15 +360,16 @@ impl FsFault {
 
 #[derive(Clone, Debug)]
 pub enum Case {
-    Single { opts: Opts, via_action: bool, style: u64 },
-    Batch { opts: Opts, samples: usize, faults: Vec<(usize, FsFault)>, stale: bool, dir_preexists: bool, dir_is_file: bool, rayon_threads: usize, via_action: bool, style: u64 },
+    Single { opts: Opts, via_action: bool, style: u64, fsize: Option<u64> },
+    Batch { opts: Opts, samples: usize, faults: Vec<(usize, FsFault)>, stale: bool, dir_preexists: bool, dir_is_file: bool, rayon_threads: usize, via_action: bool, style: u64, fsize: Option<u64> },
 }
 
 impl Case {
     pub fn to_json(&self) -> Value {
         match self {
-            Case::Single { opts, via_action, style } => json!({"kind": "single", "opts": opts.to_json(), "via_action": via_action, "style": style}),
-            Case::Batch { opts, samples, faults, stale, dir_preexists, dir_is_file, rayon_threads, via_action, style } => json!({
+            Case::Single { opts, via_action, style, fsize } => json!({"kind": "single", "opts": opts.to_json(), "via_action": via_action, "style": style, "rlimit_fsize": fsize}),
+            Case::Batch { opts, samples, faults, stale, dir_preexists, dir_is_file, rayon_threads, via_action, style, fsize } => json!({
+                "rlimit_fsize": fsize,
                 "kind": "batch", "opts": opts.to_json(), "samples": samples,
                 "fs_faults": faults.iter().map(|(k, f)| json!({"file": k, "kind": f.name()})).collect::<Vec<_>>(),
                 "stale": stale, "dir_preexists": dir_preexists, "dir_is_file": dir_is_file, "rayon_threads": rayon_threads, "via_action": via_action, "style": style}),
@@ -377,7 +378,7 @@ impl Case {
     pub fn from_json(v: &Value) -> Option<Case> {
         let opts = Opts::from_json(&v["opts"])?;
         match v["kind"].as_str()? {
-            "single" => Some(Case::Single { opts, via_action: v["via_action"].as_bool()?, style: v["style"].as_u64().unwrap_or(0) }),
+            "single" => Some(Case::Single { opts, via_action: v["via_action"].as_bool()?, style: v["style"].as_u64().unwrap_or(0), fsize: v["rlimit_fsize"].as_u64() }),
             "batch" => Some(Case::Batch {
                 opts,
                 samples: v["samples"].as_u64()? as usize,
@@ -388,6 +389,7 @@ impl Case {
                 rayon_threads: v["rayon_threads"].as_u64()? as usize,
                 via_action: v["via_action"].as_bool()?,
                 style: v["style"].as_u64().unwrap_or(0),
+                fsize: v["rlimit_fsize"].as_u64(),
             }),
             _ => None,
         }
@@ -399,8 +401,11 @@ pub fn draw_case(seed: u64, index: u64) -> Case {
     let opts = draw_opts(&mut rng);
     let via_action = rng.random_range(0..4) == 0;
     let style = rng.random::<u64>() >> 8;
+    // short-write fault: the process may not write files larger than L bytes (RLIMIT_FSIZE); the
+    // kernel then completes a write only partially
+    let fsize = if opts.seed.is_some() && rng.random_range(0..12) == 0 { Some([0u64, 1, 64, 512, 4096][rng.random_range(0..5)]) } else { None };
     if rng.random_range(0..2) == 0 {
-        Case::Single { opts, via_action, style }
+        Case::Single { opts, via_action, style, fsize }
     } else {
         // mostly small batches; one in 12 is large enough to keep every rayon worker busy for a while
         let mut samples = if rng.random_range(0..12) == 0 { rng.random_range(40..260) } else { rng.random_range(0..=12) };
@@ -455,6 +460,7 @@ pub fn draw_case(seed: u64, index: u64) -> Case {
             rayon_threads: [1usize, 2, 3, 8, 16][rng.random_range(0..5)],
             via_action,
             style,
+            fsize: if mass { None } else { fsize },
         }
     }
 }
@@ -471,7 +477,7 @@ struct RunOut {
     stderr: String,
 }
 
-fn run_cli(args: &[String], rayon: Option<usize>, action_env: Option<Vec<(String, String)>>) -> RunOut {
+fn run_cli(args: &[String], rayon: Option<usize>, action_env: Option<Vec<(String, String)>>, fsize: Option<u64>) -> RunOut {
     let mut cmd;
     if let Some(env) = action_env {
         cmd = Command::new("bash");
@@ -490,6 +496,18 @@ fn run_cli(args: &[String], rayon: Option<usize>, action_env: Option<Vec<(String
         cmd.env("RAYON_NUM_THREADS", n.to_string());
     }
     cmd.env("NO_COLOR", "1");
+    if let Some(l) = fsize {
+        use std::os::unix::process::CommandExt;
+        unsafe {
+            cmd.pre_exec(move || {
+                let lim = libc::rlimit { rlim_cur: l as libc::rlim_t, rlim_max: l as libc::rlim_t };
+                libc::setrlimit(libc::RLIMIT_FSIZE, &lim);
+                let core = libc::rlimit { rlim_cur: 0, rlim_max: 0 };
+                libc::setrlimit(libc::RLIMIT_CORE, &core);
+                Ok(())
+            });
+        }
+    }
     let o = cmd.stdin(Stdio::null()).stdout(Stdio::piped()).stderr(Stdio::piped()).output();
     match o {
         Ok(o) => RunOut { code: o.status.code(), stderr: String::from_utf8_lossy(&o.stderr).to_string() },
@@ -505,20 +523,33 @@ pub fn run_case(case: &Case, tag: &str, stats: &mut Stats) -> Vec<Violation> {
     let mut v = vec![];
     let dir = scratch(tag);
     match case {
-        Case::Single { opts, via_action, style } => {
+        Case::Single { opts, via_action, style, fsize } => {
             let file = dir.join("out.pkl");
+            // with a file-size limit below the pickle's size the write cannot complete: the only
+            // requirement then is that the tool does not report success
+            let short = match (fsize, expected_bytes(opts)) {
+                (Some(l), Some((w, _))) => (w.len() as u64) > *l,
+                _ => false,
+            };
+            if fsize.is_some() {
+                stats.bump("fault.fs.rlimit_fsize(short write)");
+            }
             let out = if *via_action {
                 stats.bump("fault.front_end.action_wrapper_runs");
                 let mut env = opts.action_env(*style);
                 env.push(("INPUT_OUTPUT_FILE".into(), file.display().to_string()));
-                run_cli(&[], None, Some(env))
+                run_cli(&[], None, Some(env), *fsize)
             } else {
                 let mut args = vec![file.display().to_string()];
                 args.extend(opts.argv());
-                run_cli(&args, None, None)
+                run_cli(&args, None, None, *fsize)
             };
             let label = if *via_action { "action-differs" } else { "cli-bytes-differ" };
-            if out.code != Some(0) {
+            if short {
+                if out.code == Some(0) {
+                    v.push(Violation::new("C13", "exit-status(nonzero,0)", format!("the output file could not be written completely (RLIMIT_FSIZE {} bytes) but the tool exited 0", fsize.unwrap_or(0))));
+                }
+            } else if out.code != Some(0) {
                 v.push(Violation::new("C13", format!("exit-status(0,{})", out.code.map(|c| c.to_string()).unwrap_or("signal".into())), format!("single-file mode failed ({}): {}", opts.summary(), last_lines(&out.stderr))));
             } else {
                 match std::fs::read(&file) {
@@ -544,7 +575,14 @@ pub fn run_case(case: &Case, tag: &str, stats: &mut Stats) -> Vec<Violation> {
                 }
             }
         }
-        Case::Batch { opts, samples, faults, stale, dir_preexists, dir_is_file, rayon_threads, via_action, style } => {
+        Case::Batch { opts, samples, faults, stale, dir_preexists, dir_is_file, rayon_threads, via_action, style, fsize } => {
+            let short = match (fsize, expected_bytes(opts)) {
+                (Some(l), Some((w, _))) => (w.len() as u64) > *l && *samples > 0 && !*dir_is_file,
+                _ => false,
+            };
+            if fsize.is_some() {
+                stats.bump("fault.fs.rlimit_fsize(short write)");
+            }
             let out_dir = dir.join("out");
             if *dir_is_file {
                 let _ = std::fs::write(&out_dir, b"i am a file");
@@ -581,15 +619,22 @@ pub fn run_case(case: &Case, tag: &str, stats: &mut Stats) -> Vec<Violation> {
                 let mut env = opts.action_env(*style);
                 env.push(("INPUT_OUTPUT_DIR".into(), out_dir.display().to_string()));
                 env.push(("INPUT_SAMPLES".into(), samples.to_string()));
-                run_cli(&[], Some(*rayon_threads), Some(env))
+                run_cli(&[], Some(*rayon_threads), Some(env), *fsize)
             } else {
                 let mut args = vec!["--dir".to_string(), out_dir.display().to_string(), "--samples".to_string(), samples.to_string()];
                 args.extend(opts.argv());
-                run_cli(&args, Some(*rayon_threads), None)
+                run_cli(&args, Some(*rayon_threads), None, *fsize)
             };
             stats.bump(&format!("fault.rayon.threads={}", rayon_threads));
-            let expect_ok = faults.is_empty() && !(*dir_is_file && *samples > 0);
+            let expect_ok = faults.is_empty() && !(*dir_is_file && *samples > 0) && !short;
             let got_ok = out.code == Some(0);
+            if short {
+                if got_ok {
+                    v.push(Violation::new("C13", "exit-status(nonzero,0)", format!("no sample could be written completely (RLIMIT_FSIZE {} bytes) but the batch exited 0", fsize.unwrap_or(0))));
+                }
+                let _ = std::fs::remove_dir_all(&dir);
+                return v;
+            }
             if expect_ok != got_ok {
                 v.push(Violation::new(
                     "C13",
@@ -758,7 +803,7 @@ impl PySeq {
                 }
             }
         }
-        let sc = Scenario { config: cfg, hash_key: 0, history, faults: vec![] };
+        let sc = Scenario { config: cfg, hash_key: 0, history, faults: vec![], steer: None };
         let recs = exec::run_scenario(&sc, Trace::Off, false);
         slots
             .iter()
